@@ -228,6 +228,16 @@ def run_case(case, res):
             chk("len(tree)", len(t), len(order))
             from nutree.typed_tree import ANY_KIND as _ANY
 
+            if typed:
+                # tree-level first/last child by kind (every kind present at the top level, one absent, and any kind)
+                topk = kids["root"]
+                for kd in sorted({c.kind for c in topk}) + ["".join(["no", "ne"])]:
+                    of_kind = [c for c in topk if c.kind == kd]
+                    chk(f"tree.first_child({kd!r})", t.first_child(kind="".join([kd[:1], kd[1:]])), of_kind[0] if of_kind else None)
+                    chk(f"tree.last_child({kd!r})", t.last_child(kind="".join([kd[:1], kd[1:]])), of_kind[-1] if of_kind else None)
+                chk("tree.first_child(ANY)", t.first_child(kind=_ANY), topk[0] if topk else None)
+                chk("tree.last_child(ANY)", t.last_child(kind=_ANY), topk[-1] if topk else None)
+
             # --- the same tree emptied again (three ways), then refilled: tree-level answers of an empty / one-node tree
             how = (len(order) + len(case["f"])) % 3
             if how == 0:
